@@ -1566,7 +1566,7 @@ class Solid:
                 is_cordon = True
             elif v.name == 'color':
                 editor_color = Vec.from_str(v.value, 255, 255, 255)
-            elif v.name == 'group':
+            elif v.name in ('groupid', 'group'):
                 group_id = int(v.value)
             elif v.name == 'visgroupid':
                 try:
